@@ -77,6 +77,26 @@ func checkFlagsThroughMetadata(c *core.Ctx, rule string) {
 	if nReaders == 0 {
 		c.Undecided(rule, "chunked#reader-flags", "-", "no metadata fetch helper found")
 	}
+	// reply side: a hit carries the flags recorded in the metadata it was assembled under
+	for _, fn := range pkgFuncs(c, relChunked) {
+		counts := map[string]int{}
+		ssax.Instrs(fn, func(ins ssa.Instruction) {
+			al, ok := ins.(*ssa.Alloc)
+			if !ok || !strings.HasSuffix(ssax.ShortType(al.Type()), "Response") || literalField(al, "Key") == nil {
+				return
+			}
+			if miss, known := literalBool(al, "Miss"); !known || miss {
+				return
+			}
+			key := ordinalKey(counts, core.FuncName(fn)+"#hit-flags")
+			srcs := pv.Sources(al, "Flags")
+			ok2 := len(srcs) > 0 && ssax.All(srcs, func(s ssax.Src) bool {
+				return (s.Kind == "call" || s.Kind == "outparam") && len(s.Path) > 0 && s.Path[len(s.Path)-1] == "OrigFlags"
+			})
+			c.Check(ok2, rule, key, c.P.Pos(al.Pos()), "the hit carries the OrigFlags of the metadata record it was read under",
+				"the hit is built with Flags <- "+strings.Join(ssax.Strings(srcs), ",")+" instead of the flags recorded in the item's metadata: the client gets other flags than it stored")
+		})
+	}
 	// writer side
 	for _, fn := range pkgFuncs(c, relChunked) {
 		counts := map[string]int{}
